@@ -83,9 +83,6 @@ func genCase(t *rapid.T) Case {
 	if cli && rapid.IntRange(0, 5).Draw(t, "cli") == 0 {
 		c.CLI = true
 	}
-	if os.Getenv("C05_DEV_ALL_CLI") != "" && os.Getenv("VERIF_DESYNC_BIN") != "" { // development aid: every case through the binary
-		c.CLI = true
-	}
 	c.Sizes = gen.Sizes{Min: 48, Avg: 64, Max: 256}
 	if c.Via == "index" {
 		if c.CLI {
